@@ -49,6 +49,10 @@ pub enum Hc {
     DeleteKey,
     /// restore the selected snapshot to disk (reads data packs from the cold store)
     Restore(u16),
+    /// restore snapshot `from`, remove the files picked by `drop` and (if `touch`) give the rest
+    /// another mtime, then restore snapshot `sel` over it: the existing files are compared blob by
+    /// blob and only the missing blobs are fetched, from packs that must still all be warmed up
+    RestoreOver { sel: u16, from: u16, drop: u16, touch: bool },
     RepairIndex { read_all: bool },
 }
 
@@ -87,6 +91,8 @@ fn strategy(_ctx: &Ctx) -> BoxedStrategy<Case> {
                 1 => Just(Hc::AddKey),
                 1 => Just(Hc::DeleteKey),
                 2 => any::<u16>().prop_map(Hc::Restore),
+                3 => (any::<u16>(), any::<u16>(), any::<u16>(), prop::bool::weighted(0.8))
+                    .prop_map(|(sel, from, drop, touch)| Hc::RestoreOver { sel, from, drop, touch }),
                 1 => any::<bool>().prop_map(|read_all| Hc::RepairIndex { read_all }),
             ];
             (
@@ -178,6 +184,9 @@ impl Repo {
 
     fn step_inner(&mut self, op: &Hc) -> Result<(), String> {
         self.clock += 100;
+        // every command starts with a cold store: a warm-up requested by an earlier command must
+        // not excuse a missing request of this one
+        self.cold.cool_down();
         match op {
             Hc::Backup { edits, parent } => {
                 for e in edits {
@@ -255,6 +264,37 @@ impl Repo {
                     let fs = walk(&dest).map_err(|e| e.to_string())?;
                     if let Some(d) = compare_fs(m, &fs, &FsCmp { ownership: false, hardlinks: true, exact_set: true }) {
                         return Err(format!("restored tree differs from the source: {d}"));
+                    }
+                }
+            }
+            Hc::RestoreOver { sel, from, drop, touch } => {
+                if !self.live.is_empty() {
+                    let (s0, _) = &self.live[pick_idx(*from, self.live.len())];
+                    let (s, m) = &self.live[pick_idx(*sel, self.live.len())];
+                    let repo = self.open()?.to_indexed().map_err(|e| estr(&e))?;
+                    let scratch = Scratch::new("c16");
+                    let dest = scratch.path().join("d");
+                    let opts = RestoreOptions::default().no_ownership(true);
+                    restore_snapshot(&repo, s0, &dest, &opts)?;
+                    let before = walk(&dest).map_err(|e| e.to_string())?;
+                    for (i, (k, e)) in before.iter().enumerate() {
+                        if !matches!(e.kind, crate::fsutil::FsKind::File(_)) {
+                            continue;
+                        }
+                        let path = dest.join(crate::model::name_os(k));
+                        if crate::model::splitmix(u64::from(*drop) ^ (i as u64).wrapping_mul(0x9E37_79B9)) % 3 == 0 {
+                            std::fs::remove_file(&path).map_err(|e| e.to_string())?;
+                        } else if *touch {
+                            filetime::set_file_mtime(&path, filetime::FileTime::from_unix_time(1_234_567_890, 0))
+                                .map_err(|e| e.to_string())?;
+                        }
+                    }
+                    // what the first restore warmed up has cooled down again in the meantime
+                    self.cold.cool_down();
+                    restore_snapshot(&repo, s, &dest, &opts).map_err(|e| format!("restore over an existing destination: {e}"))?;
+                    let fs = walk(&dest).map_err(|e| e.to_string())?;
+                    if let Some(d) = compare_fs(m, &fs, &FsCmp { ownership: false, hardlinks: true, exact_set: false }) {
+                        return Err(format!("tree restored over an existing destination differs from the source: {d}"));
                     }
                 }
             }
@@ -351,7 +391,10 @@ fn check_all_prefixes(log: &[Op], key: &[u8; 64]) -> Result<usize, String> {
 }
 
 pub fn run(c: &Case, _ctx: &Ctx) -> Outcome {
-    let mut out = Outcome::pass().class_if(c.strict_cold, "strict_cold_store");
+    let mut out = Outcome::pass().class_if(c.strict_cold, "strict_cold_store").class_if(
+        c.strict_cold && c.ops.iter().any(|o| matches!(o, Hc::RestoreOver { .. })),
+        "restore_over_existing_files_from_strict_cold_store",
+    );
     macro_rules! fail {
         ($($arg:tt)*) => {{
             out.failure = Some(format!($($arg)*));
@@ -508,7 +551,7 @@ pub fn spec() -> PropSpec {
     PropSpec {
         id: "C16",
         level: "fault_enumeration",
-        rule: "proptest generates (configuration, source tree, history of 1–6 operations after an initial backup from {backup ±parent, forget, prune with generated options, copy into, config change, key add/remove, restore to disk, repair index ±read-all}, strict cold store on/off, subset of hot files to remove incl. all and incl. the config); the history runs on a hot/cold pair of in-memory stores with one shared operation log and, for the differential, on a single store. The hot⊇cold invariant is evaluated after EVERY applied storage operation of the combined log (counter storage_ops_prefixes_checked). Non-trivial = a prune that wrote a new tree pack, or a repair after removing hot files of ≥2 types; distinct by hash of the case.",
+        rule: "proptest generates (configuration, source tree, history of 1–6 operations after an initial backup from {backup ±parent, forget, prune with generated options, copy into, config change, key add/remove, restore to disk into an empty destination or over an earlier restore with files removed / re-dated, repair index ±read-all}, strict cold store on/off, subset of hot files to remove incl. all and incl. the config); the history runs on a hot/cold pair of in-memory stores with one shared operation log and, for the differential, on a single store. The hot⊇cold invariant is evaluated after EVERY applied storage operation of the combined log (counter storage_ops_prefixes_checked). Non-trivial = a prune that wrote a new tree pack, or a repair after removing hot files of ≥2 types; distinct by hash of the case.",
         assumptions: vec![
             "storage operations are atomic; the interruption model is 'any prefix of the combined hot+cold operation sequence'",
             "pack type (tree/data) is decided with the independent trailer decoder",
